@@ -480,6 +480,12 @@ class TlsConn:
             if d == 2:
                 if version == TLS13:
                     self.ticket(ln)
+                else:
+                    # <= TLS 1.2: a HelloRequest (RFC 5246 7.4.1.1) from the server in the application phase, which the client ignores
+                    # (no renegotiation follows): an encrypted handshake record with the 4-byte message 00 00 00 00
+                    w = self.w[True]
+                    self.events.append((True, w.protect(0x16, hs(0, b"")), "HREQ"))
+                    self.rec_index.append(None)
                 continue
             if d in (3, 4):          # warning-level alert (close_notify) sent by the client (3) / server (4): extension used by C13 only
                 self.alert(d == 4, 1, 0)
